@@ -524,7 +524,7 @@ func oddEvents(s *evx.Sim, thorough bool, yield func(typ, desc string, x shutter
 	valid := s.ValidEvalForMe
 	evalLists := [][][]byte{nil, {{}}, {x}, {valid}, {{}, x}, {valid, x}, {x, valid}, {x, x, x}}
 	order := new(big.Int).Add(evx.BigPool()[2], big.NewInt(1))
-	bigLists := [][]*big.Int{nil, {big.NewInt(0)}, {big.NewInt(1)}, {evx.BigPool()[2]}, {big.NewInt(0), big.NewInt(1)}, {order}, {big.NewInt(1), big.NewInt(1), big.NewInt(1)}}
+	bigLists := [][]*big.Int{nil, {big.NewInt(0)}, {big.NewInt(1)}, {evx.BigPool()[2]}, {big.NewInt(0), big.NewInt(1)}, {order}, {big.NewInt(1), big.NewInt(1), big.NewInt(1)}, {evx.BigPool()[3]}, {big.NewInt(1), evx.BigPool()[4]}, {evx.BigPool()[5]}}
 	gammas := evx.GammasPool(2)
 	for si, snd := range senders {
 		for ei, eon := range eons {
